@@ -142,7 +142,7 @@ class Gen:
                 del self.w.slots[sid]
             for k in [k for k in self.w.outputs if k[0] == i]:
                 del self.w.outputs[k]
-            self.discarded += isinstance(e, IllConditioned)
+            self.discarded += isinstance(e, IllConditioned) and "copy unsupported" not in str(e)
             if rec["op"] in model.MUTATORS:
                 # a mutator cannot be rolled back: stop the history here, keep the record out
                 raise
